@@ -226,6 +226,36 @@ pub fn cmd_files_replay(a: &HashMap<String, String>) -> i32 {
                 problems.push("parsing the written file gives a different structure".into());
             }
         }
+        // the format is defined relative to where the file begins, not to where the stream happens to stand: the same image
+        // read from (and written to) a stream that stands 1, 2, 3 and 5 bytes further on gives the same result (sampled)
+        if p.verdict == "ok" && want == "ok" && lineno % 5 == 0 {
+            for k in [1usize, 2, 3, 5] {
+                let mut shifted = vec![0xA5u8; k];
+                shifted.extend_from_slice(img);
+                let mut rd = Cursor::new(&shifted[..]);
+                rd.set_position(k as u64);
+                let ok = std::panic::catch_unwind(std::panic::AssertUnwindSafe(|| {
+                    let mut wr = Cursor::new(vec![0xA5u8; k]);
+                    wr.set_position(k as u64);
+                    if fmt == "pth" {
+                        match Pth::read(&mut rd) {
+                            Ok(q) => q.write(&mut wr).is_ok() && wr.into_inner()[k..] == img[..],
+                            Err(_) => false,
+                        }
+                    } else {
+                        match Smx::read(&mut rd) {
+                            Ok(q) => q.write(&mut wr).is_ok() && wr.into_inner()[k..] == img[..],
+                            Err(_) => false,
+                        }
+                    }
+                }))
+                .unwrap_or(false);
+                if !ok {
+                    problems.push(format!("the same image read from / written to a stream standing at offset {k} does not give the same bytes"));
+                    break;
+                }
+            }
+        }
         // the file-based entry points agree with the in-memory parser (sampled)
         if lineno % 97 == 0 {
             let fp = tmp.join(format!("case{lineno}.{fmt}"));
